@@ -1,6 +1,7 @@
 import GlyModel.Generated.Tables
 import GlyModel.Smiles.Tokenize
 import GlyProofs.Smiles.Relabel
+import GlyProofs.Smiles.TreeTheorem
 /-
   C02 — Every non-empty result is a valid, whole, placeholder-free molecule. (Property theorems only.)
 -/
@@ -52,5 +53,21 @@ open Gly.Smi Gly.Asm in
 theorem C02_label_100_counterexample :
     tokenize (shiftLabel ['0'] 100) = some [Tok.ring 10, Tok.ring 0] := by
   decide +kernel
+
+open Gly.Smi in
+/-- **No marker survives, nothing stays open** – for every well-formed tree of residue strings (`wfTree`, any depth and
+    width): the assembled string is a closed SMILES (every branch closed, every ring label paired, no dangling bond symbol)
+    and none of its atoms is a marker atom. -/
+theorem C02_no_marker_survives (isMk : Atom → Bool) (hN : isMk ['N'] = false) (t : TNode) (h : wfTree isMk t = true) :
+    (∃ M, sem (mergeTok t) = some M ∧ ∀ a ∈ M.atoms, isMk a = false) := by
+  obtain ⟨M, h1, _, _, hfree⟩ := tree_ok isMk hN t h
+  refine ⟨M, h1, ?_⟩
+  intro a ha
+  obtain ⟨s, hr, _, hm⟩ := (sem_eq_some _ _).mp h1
+  have hat : s.atoms = atomsOf (mergeTok t) := by simpa [St.init] using run_atoms _ St.init s hr
+  have : a ∈ atomsOf (mergeTok t) := by rw [← hat]; rw [← hm] at ha; exact ha
+  cases hmk : isMk a with
+  | false => rfl
+  | true => exact absurd ((mem_atomsOf a _).mp this) (hfree a hmk)
 
 end Gly.Props.C02
